@@ -124,11 +124,16 @@ func VerifLemma_C08A_FileNodeRoundTrip() {
 }
 
 // VerifLemma_C08A_DigestRoundTrip: ParseDigest(d.String()) == d and the text is "shake256:" + 128 lower-case hex
-// characters. The value has SYMBYTES consecutive fully symbolic bytes at every possible position; the remaining
+// characters. The value has SYMBYTES consecutive fully symbolic bytes at POSITIONS evenly spaced positions; the remaining
 // bytes are a concrete pattern (hex encoding and decoding are byte-local).
 func VerifLemma_C08A_DigestRoundTrip() {
 	w := verifParam("SYMBYTES")
-	d := viDigestAt(verifNondetChoice(64-w+1), w, 0)
+	np := verifParam("POSITIONS") // evenly spaced start positions, first = 0, last = 64-w
+	pos := 0
+	if np > 1 {
+		pos = verifNondetChoice(np) * (64 - w) / (np - 1)
+	}
+	d := viDigestAt(pos, w, 0)
 	s := d.String()
 	verifCover("digest rendered")
 	verifAssert(len(s) == 9+128, "digest text is shake256: + 128 hex chars")
@@ -143,4 +148,98 @@ func VerifLemma_C08A_DigestRoundTrip() {
 	verifAssert(d2.Type() == d.Type(), "parsed digest: same type")
 	verifAssert(DigestEqual(d, d2), "parsed digest: same value")
 	verifAssert(d2.String() == s, "parsed digest renders to the same text")
+}
+
+// refILess is bytewise lexicographic a < b.
+func refILess(a, b string) bool {
+	for i := 0; i < len(a) && i < len(b); i++ {
+		if a[i] != b[i] {
+			return a[i] < b[i]
+		}
+	}
+	return len(a) < len(b)
+}
+
+// viPermute returns a nondeterministically chosen permutation of nodes (every permutation is explored).
+func viPermute(nodes []FileNode) []FileNode {
+	out := make([]FileNode, 0, len(nodes))
+	rest := append([]FileNode(nil), nodes...)
+	for len(rest) > 0 {
+		k := 0
+		if len(rest) > 1 {
+			k = verifNondetChoice(len(rest))
+		}
+		out = append(out, rest[k])
+		rest = append(rest[:k:k], rest[k+1:]...)
+	}
+	return out
+}
+
+// VerifLemma_C08B_Canonical: NewManifest fails iff two nodes share a path; otherwise String() is exactly the
+// reference text (lines "digest  path\n" in strictly increasing bytewise path order), FileNodes() is in that order,
+// GetFileNode/GetDigest find exactly the nodes, and every permutation of the input gives the same text.
+func VerifLemma_C08B_Canonical() {
+	n := verifNondetChoice(verifParam("FILES") + 1)
+	nodes := viAcceptedNodes(n, verifParam("N"), verifParam("SYMDIGEST") != 0)
+	dup := false
+	for i := 0; i < n; i++ {
+		for j := i + 1; j < n; j++ {
+			if nodes[i].Path() == nodes[j].Path() {
+				dup = true
+			}
+		}
+	}
+	m, err := NewManifest(nodes)
+	verifCover("NewManifest returned")
+	verifAssert((err != nil) == dup, "NewManifest fails iff a path is duplicated")
+	if err != nil {
+		return
+	}
+	// reference: insertion sort by path
+	sorted := make([]FileNode, 0, n)
+	for _, node := range nodes {
+		k := len(sorted)
+		for k > 0 && refILess(node.Path(), sorted[k-1].Path()) {
+			k--
+		}
+		sorted = append(sorted, nil)
+		copy(sorted[k+1:], sorted[k:])
+		sorted[k] = node
+	}
+	want := ""
+	for _, node := range sorted {
+		want += node.Digest().String() + "  " + node.Path() + "\n"
+	}
+	text := m.String()
+	verifAssert(text == want, "manifest text is the path-sorted list of digest SP SP path LF lines")
+	got := m.FileNodes()
+	verifAssert(len(got) == n, "FileNodes has every node")
+	for i := range got {
+		verifAssert(got[i] == sorted[i], "FileNodes is sorted by path")
+		verifAssert(m.GetFileNode(sorted[i].Path()) == sorted[i], "GetFileNode finds each node by path")
+		verifAssert(DigestEqual(m.GetDigest(sorted[i].Path()), sorted[i].Digest()), "GetDigest finds each digest by path")
+	}
+	if n >= 2 {
+		m2, err := NewManifest(viPermute(nodes))
+		verifAssert(err == nil, "a permutation of distinct paths is accepted")
+		verifAssert(m2.String() == text, "manifest text does not depend on input order")
+		verifCover("permutation compared")
+	}
+}
+
+// VerifLemma_C08B_Absent: GetFileNode/GetDigest of a path that is not in the manifest return nil.
+func VerifLemma_C08B_Absent() {
+	n := verifNondetChoice(verifParam("FILES") + 1)
+	nodes := viAcceptedNodes(n, verifParam("N"), false)
+	m, err := NewManifest(nodes)
+	if err != nil {
+		return
+	}
+	q := verifNondetString(verifParam("N"))
+	for _, node := range nodes {
+		verifAssume(node.Path() != q)
+	}
+	verifCover("absent path queried")
+	verifAssert(m.GetFileNode(q) == nil, "GetFileNode of an absent path is nil")
+	verifAssert(m.GetDigest(q) == nil, "GetDigest of an absent path is nil")
 }
